@@ -352,10 +352,11 @@ impl EventGen for SpecsElement {
             context.in_specs = true;
             #[cfg(feature = "verif")]
             crate::verif::specs_flag(true);
-            process_events(inner_events, context)?;
+            let res = process_events(inner_events, context);
             context.in_specs = false;
             #[cfg(feature = "verif")]
             crate::verif::specs_flag(false);
+            res?;
         }
         Ok((OutputList::new(), None))
     }
